@@ -16,22 +16,29 @@
 (*          for the species inserted by this call                          *)
 (*   ret, after  (copy) names of the returned list; names of p after the   *)
 (*          driver appended a species to the RETURNED list                 *)
+(*   elems  <<pid, phase.elements>> of every live object after the call    *)
+(*          (<<>> when the driver did not look)                            *)
+(*   api, wel, wsp  (observe) which writer was read (elements / to_cti /   *)
+(*          to_omkm_yaml) and the elements and species names it states     *)
+(*   elem_of (begin) <<species, its elements>>                             *)
 (*   raised TRUE when the library raised                                   *)
 (* `st` is the `names` of the previous line of the same trace id, so the   *)
 (* relations of Phases.tla are evaluated between consecutive observations. *)
 (* Clauses (names of the failing ones are accumulated in TLC register 1):  *)
 (*   Frame  Effect  NewIsWhatWasGiven  OwnerAfterInsert  CopySnapshot      *)
-(*   CopyDetached  LiveSet  Raises                                         *)
+(*   CopyDetached  LiveSet  Raises  PhaseElementsAreUnionOfSpecies         *)
+(*   WrittenSpeciesAreMembers                                              *)
 (***************************************************************************)
 EXTENDS Integers, Sequences, FiniteSets, TLC, TLCExt, Json, IOUtils
 
 TraceLog == ndJsonDeserialize(IOEnv.TRACE_FILE)
-VARIABLES l, st
+VARIABLES l, st, eo
 
 Keys(pairs) == {pairs[k][1] : k \in 1..Len(pairs)}
 Val(pairs, key) == pairs[CHOOSE k \in 1..Len(pairs) : pairs[k][1] = key][2]
 Fn(pairs) == [key \in Keys(pairs) |-> Val(pairs, key)]
 
+NoDupS(s) == \A i, j \in 1..Len(s) : i # j => s[i] # s[j]
 RemoveAt(s, i) == SubSeq(s, 1, i - 1) \o SubSeq(s, i + 1, Len(s))
 Has(s, x) == \E i \in 1..Len(s) : s[i] = x
 FirstIndex(s, x) == CHOOSE i \in 1..Len(s) : s[i] = x /\ \A j \in 1..(i - 1) : s[j] # x
@@ -44,8 +51,16 @@ Required(e, old) ==
      [] e.ev = "pop"    -> IF e.i >= 0 /\ e.i < Len(old) THEN RemoveAt(old, e.i + 1) ELSE old
      [] e.ev = "clear"  -> <<>>
      [] e.ev = "copy"   -> old
+     [] e.ev = "observe" -> old
      [] e.ev = "assign" -> e.L
      [] OTHER -> old
+
+SetOf(s) == {s[k] : k \in 1..Len(s)}
+\* UNION of the elements of the named species (eo = the begin line's table)
+Union(nms) == UNION {SetOf(eo[nms[k]]) : k \in 1..Len(nms)}
+ElementsOK(e, now) ==
+   LET E == Fn(e.elems) IN
+   \A q \in DOMAIN E : q \in DOMAIN now /\ NoDupS(E[q]) /\ SetOf(E[q]) = Union(now[q])
 
 Inserted(e) == CASE e.ev = "append" -> {e.s}
                  [] e.ev \in {"extend", "assign"} -> {e.L[k] : k \in 1..Len(e.L)}
@@ -72,16 +87,23 @@ Clauses(e) ==
             THEN (IF e.p \in DOMAIN st /\ e.ret = st[e.p] THEN {} ELSE {"CopySnapshot"})
                  \cup (IF e.p \in DOMAIN st /\ e.after = st[e.p] THEN {} ELSE {"CopyDetached"})
             ELSE {})
+      \cup (IF ElementsOK(e, now) THEN {} ELSE {"PhaseElementsAreUnionOfSpecies"})
+      \cup (IF e.ev = "observe"
+            THEN (IF e.p \in DOMAIN st /\ NoDupS(e.wel) /\ SetOf(e.wel) = Union(st[e.p])
+                  THEN {} ELSE {"PhaseElementsAreUnionOfSpecies"})
+                 \cup (IF e.p \in DOMAIN st /\ e.wsp = st[e.p] THEN {} ELSE {"WrittenSpeciesAreMembers"})
+            ELSE {})
 
 Step(e) == IF e.ev = "begin" THEN <<>> ELSE IF e.raised THEN st ELSE Fn(e.names)
 
-Init == l = 1 /\ st = <<>> /\ TLCSet(1, {})
+Init == l = 1 /\ st = <<>> /\ eo = <<>> /\ TLCSet(1, {})
 Next == /\ l <= Len(TraceLog)
         /\ LET e == TraceLog[l]  bad == Clauses(e) IN
              /\ IF bad # {} THEN TLCSet(1, TLCGet(1) \cup {<<e.tid, l, c>> : c \in bad}) ELSE TRUE
              /\ st' = Step(e)
+             /\ eo' = IF e.ev = "begin" THEN Fn(e.elem_of) ELSE eo
         /\ l' = l + 1
-Spec == Init /\ [][Next]_<<l, st>>
+Spec == Init /\ [][Next]_<<l, st, eo>>
 Post == /\ PrintT(<<"FAILS", TLCGet(1)>>)
         /\ PrintT(<<"CONSUMED", TLCGet("stats").diameter - 1>>)
 =============================================================================
